@@ -200,6 +200,8 @@ class Oracle:
 
     def update(self, pid, mi, lvs, op, x, t):
         """the child exists already (create_child was called)"""
+        if op == 'settime':     # set_to_current_time(): a set of the clock reading, at that time
+            op, x = 'set', t
         md = self.pool[mi]
         fam = self._fam(pid, md)
         L = self.labels_of(md, lvs)
@@ -424,6 +426,8 @@ class RealProc:
                 c.dec(x)
             elif op == 'obs':
                 c.observe(x)
+            elif op == 'settime':
+                c.set_to_current_time()
             else:
                 c.set(x)
         except Exception as e:  # noqa
@@ -501,6 +505,8 @@ class World:
         md = self.pool[mi]
         p = self.proc(pid)
         res.count('kind:' + (md['kind'] if md['kind'] != 'gauge' else 'gauge-' + md['mode']))
+        if op == 'settime':
+            res.count('settime:' + md.get('mode', ''))
         try:
             if op == 'create':
                 p.metric(mi)
@@ -765,7 +771,29 @@ def foreign_corpus():
     S.append([['obs', 1, 1, ['a'], B(1.0)], ['obs', 2, 1, ['a'], B(2.0)], ['obs', 2, 1, ['b'], B(1000000.0)], ['child', 3, 1, ['a']],
               ['obs', 1, 4, ['x', 'a'], B(1.0)], ['obs', 2, 4, ['x', 'a'], B(2.5)], ['obs', 3, 4, ['', 'b'], B(8.0)],
               ['dead', 2], ['obs', 1, 1, ['a'], B(0.5)], F(5, 4, ['x', 'a'], [('1', 1.0), ('inf', 1.0)], 2.0)])
-    return [{'pool': pool, 'steps': s} for s in S] + le_label_corpus()
+    return [{'pool': pool, 'steps': s} for s in S] + le_label_corpus() + settime_corpus()
+
+
+def settime_corpus():
+    """Gauge.set_to_current_time(): the value is the (scripted) clock reading, the set-time that same reading"""
+    def T(pid, mi, lvs, t):
+        return ['settime', pid, mi, lvs, B(t), B(t)]
+    out = []
+    for mode in ('mostrecent', 'livemostrecent'):
+        pool = [mdef('gauge', 'g', (), mode), mdef('gauge', 'gl', ['l'], mode)]
+        out.append({'pool': pool, 'steps': [['set', 1, 0, [], B(5.0), B(10.0)], T(2, 0, [], 20.0)]})                  # -> 20.0
+        out.append({'pool': pool, 'steps': [T(2, 0, [], 20.0), ['set', 1, 0, [], B(7.0), B(30.0)]]})                  # -> 7.0
+        out.append({'pool': pool, 'steps': [T(1, 0, [], 12.0)]})                                                      # only settime ever
+        out.append({'pool': pool, 'steps': [T(1, 1, ['x'], 12.0), ['child', 2, 1, ['x']], T(2, 1, ['y'], 12.0), T(3, 1, ['x'], 11.5)]})
+        out.append({'pool': pool, 'steps': [['set', 1, 0, [], B(5.0), B(10.0)], T(2, 0, [], 20.0), ['dead', 2], ['set', 3, 0, [], B(1.0), B(15.0)],
+                                            ['reuse', 2], T(2, 0, [], 16.0), ['dead', 3], ['dead', 1]]})
+        out.append({'pool': pool, 'steps': [T(1, 0, [], 20.0), ['set', 2, 0, [], B(3.0), B(20.0)], ['set', 3, 0, [], B(20.0), B(20.0)],
+                                            T(2, 0, [], 21.0), ['set', 1, 0, [], B(-1.0), B(21.0)]]})               # ties in time
+    for mode in ('all', 'liveall', 'min', 'livemin', 'max', 'livemax', 'sum', 'livesum'):
+        pool = [mdef('gauge', 'g', (), mode), mdef('gauge', 'gl', ['l'], mode)]
+        out.append({'pool': pool, 'steps': [T(1, 0, [], 10.0), ['set', 2, 0, [], B(12.5), B(11.0)], T(3, 0, [], 12.0), T(1, 1, ['x'], 12.5),
+                                            ['inc', 1, 0, [], B(0.5), B(13.0)], ['dead', 3], T(2, 1, ['x'], 14.0), ['reuse', 3], T(3, 0, [], 14.0)]})
+    return out
 
 
 def le_label_corpus():
@@ -883,8 +911,8 @@ def gen_scenario(rng, all_modes, long=False):
             q = rng.random()
             if rng.random() < 0.7:
                 t += float(rng.choice([1, 1, 2, 0.5]))     # otherwise the clock stands still: a tie
-            op = 'set' if q < 0.7 else ('inc' if q < 0.87 else 'dec')
-            steps.append([op, pid, mi, lvs, B(gen_value(rng, md, op)), B(t)])
+            op = 'set' if q < 0.58 else ('settime' if q < 0.72 else ('inc' if q < 0.87 else 'dec'))
+            steps.append([op, pid, mi, lvs, B(t if op == 'settime' else gen_value(rng, md, op)), B(t)])
     if rng.random() < 0.15:     # foreign / stale histogram store files at random positions
         hs = [j for j, md in enumerate(pool) if md['kind'] == 'histogram']
         if not hs or rng.random() < 0.25:   # a histogram no live process has
@@ -926,7 +954,8 @@ def gen_fork_scenario(rng, all_modes):
             else:
                 if rng.random() < 0.7:
                     t += 1.0
-                ops.append([rng.choice(['set', 'set', 'inc', 'dec']), w, mi, lvs, B(gen_value(rng, md, 'set')), B(t)])
+                op = rng.choice(['set', 'set', 'inc', 'dec', 'settime'])
+                ops.append([op, w, mi, lvs, B(t if op == 'settime' else gen_value(rng, md, 'set')), B(t)])
         workers.append(ops)
     dead = [w for w in range(len(workers)) if rng.random() < 0.5]
     return {'pool': pool, 'workers': workers, 'dead': dead, 'fork': True}
@@ -1143,7 +1172,7 @@ def run(ctx):
     all_modes = modes()
     ctx.rule = ('scenario = metric pool (counters, summaries, histograms of 5 bucket layouts, gauges of the 10 modes, labelled or not) '
                 '+ step list over 1-4 simulated processes (create / child / inc / dec / observe / set at a scripted time / '
-                'mark_process_dead / pid reuse / foreign histogram store file with non-canonical le spellings, written through the '
+                'Gauge.set_to_current_time at a scripted time / mark_process_dead / pid reuse / foreign histogram store file with non-canonical le spellings, written through the '
                 'library store); label names before and after "le"; hand-written corpus per mode first, then seeded random scenarios; one case = '
                 'one collection point (a collection follows every step); non-trivial when >= 2 processes hold data or a '
                 'death/reuse happened; distinct by the canonical collected output')
